@@ -152,18 +152,19 @@ def bramp (args impl : List String) : Option (String × String) := do
       | [rates] =>
         match parseInts rates with
         | some outs =>
-          -- the value at the end of the ramp (last query not after t0 + dur)
+          -- every query not after t0 + dur: exact interpolation at q between s and e·u/eu (a rational number of
+          -- iterations per tick of the start unit), compared after multiplying through by dur·eu; within 1 of it, as
+          -- for a ramp in one unit. (A build that rounds the converted end rate to a whole number first is up to
+          -- two off shortly before the end of the ramp.)
           let t0 := qsI.headD 0
-          let atEnd := ((qsI.zip outs).filter fun (q, _) => decide (q ≤ t0 + dur)).getLast?
-          match atEnd with
-          | some (q, v) =>
-            -- exact interpolation at q between s and e·u/eu, compared after multiplying through by dur·eu
-            let lhs := (v - sI) * dur * euI
-            let rhs := (q - t0) * (eI * uI - sI * euI)
-            if euI ≤ 0 ∨ dur ≤ 0 then "ok"
-            else if (lhs - rhs).natAbs ≤ (dur * euI).natAbs then "ok"
-            else s!"FAIL accepted-ramp-with-mixed-units-does-not-mean-what-its-rates-spell-got-{v}"
-          | none => "ok"
+          let inside := (qsI.zip outs).filter fun (q, _) => decide (q ≤ t0 + dur)
+          if euI ≤ 0 ∨ dur ≤ 0 then "ok"
+          else match inside.find? (fun (q, v) =>
+              let lhs := (v - sI) * dur * euI
+              let rhs := (q - t0) * (eI * uI - sI * euI)
+              decide ((lhs - rhs).natAbs > (dur * euI).natAbs)) with
+            | some (q, v) => s!"FAIL accepted-ramp-with-mixed-units-does-not-mean-what-its-rates-spell-at-{q}-got-{v}"
+            | none => "ok"
         | none => "FAIL unparsable-impl-output"
       | _ => "FAIL no-impl-output"
     pure ("err", spec)
